@@ -6,6 +6,7 @@ from classy_blocks.construct.edges import Project
 from classy_blocks.construct.flat.face import Face
 from classy_blocks.construct.flat.sketches.disk import QuarterDisk
 from classy_blocks.construct.operations.loft import Loft
+from classy_blocks.construct.point import Point
 from classy_blocks.construct.shape import Shape
 from classy_blocks.types import NPPointType, NPVectorType, PointType, VectorType
 from classy_blocks.util import constants
@@ -107,6 +108,11 @@ class EighthSphere(Shape):
         radius_point = np.asarray(radius_point)
         normal = f.unit_vector(np.asarray(normal))
 
+        # kept (and transformed) as parts of their own: mirroring swaps the faces of each loft,
+        # so points looked up through lofts[i].bottom_face would then be different points
+        self._center_point = Point(center_point)
+        self._radius_point = Point(radius_point)
+
         self.lofts = eighth_sphere_lofts(center_point, radius_point, normal, self.geometry_label, diagonal_angle)
 
     ### Chopping
@@ -142,6 +148,10 @@ class EighthSphere(Shape):
         return self.lofts
 
     @property
+    def parts(self):
+        return [*self.operations, self._center_point, self._radius_point]
+
+    @property
     def core(self):
         return self.lofts[: self.n_cores]
 
@@ -155,11 +165,11 @@ class EighthSphere(Shape):
 
     @property
     def radius_point(self) -> NPPointType:
-        return self.shell[0].bottom_face.points[1].position
+        return self._radius_point.position
 
     @property
     def center_point(self) -> NPPointType:
-        return self.lofts[0].bottom_face.points[0].position
+        return self._center_point.position
 
     @property
     def normal(self) -> NPVectorType:
